@@ -84,10 +84,13 @@ Print Assumptions C05_fix_never_wrong_partial.
 Example C05_past_hash_inv_holds :
   past_hash_inv x_hashf x_padz x_bs (mkFE true false 0 (Some SChg) (x_hashf 11%N 1024%N) (Some (x_f1, 0%nat))) 11%N.
 Proof. exact x_past_hash_inv_holds. Qed.
+Print Assumptions C05_past_hash_inv_holds.
 Example C05_past_hash_inv_broken_by_length :
   ~ past_hash_inv x_hashf x_padz x_bs
       (mkFE true false 0 (Some SChg) (x_hashf 11%N 1024%N) (Some (mkCF 1 100 200 0 4 false [mkFB SChg 0 (x_hashf 11%N 1024%N)], 0%nat))) 11%N.
 Proof. exact x_past_hash_inv_broken_by_length. Qed.
+Print Assumptions C05_past_hash_inv_broken_by_length.
 Example C05_past_hash_inv_broken_by_zero :
   ~ past_hash_inv x_hashf x_padz x_bs (mkFE true false 0 (Some SChg) HZero (Some (x_f1, 0%nat))) 22%N.
 Proof. exact x_past_hash_inv_broken_by_zero. Qed.
+Print Assumptions C05_past_hash_inv_broken_by_zero.
